@@ -1,0 +1,34 @@
+//go:build verif
+
+// Contracts for govc (the /verif contract verifier). Comment-only: with the build tag off this file is not
+// compiled, with it on it adds no code.
+package nodes
+
+// Two records are the same record: same flag, same event instant, same value slice.
+//@ spec sameRec(a Record, b Record) bool = a.Retraction == b.Retraction && a.EventTime.ns == b.EventTime.ns && a.Values.base == b.Values.base && a.Values.off == b.Values.off && a.Values.len == b.Values.len
+
+// C05 LIMIT: at most `limit` records, OUT is a prefix of IN, and everything is forwarded if the source ends first.
+//@ func (*Limit).Run
+//@   stream 1 invariant count: 0 <= i && i == len(IN) && len(OUT) == len(IN) && len(OUTM) == len(INM)
+//@   stream 1 invariant below: limit.Int <= 0 || i < limit.Int
+//@   stream 1 invariant prefix: forall(j, 0, len(OUT), sameRec(OUT[j], IN[j]))
+//@   ensures limit: limit.Int >= 0 ==> len(OUT) <= limit.Int
+//@   ensures prefix: forall(j, 0, len(OUT), sameRec(OUT[j], IN[j]))
+//@   ensures all: ended && result == nil ==> len(OUT) == len(IN)
+
+// C15 DISTINCT: per row class k, exactly one live output row iff the net input count is positive.
+//@ func (*Distinct).Run
+//@   stream 1 assumes forallK(k, net(IN, k) >= 0)
+//@   stream 1 invariant present: forallK(k, net(IN, k) >= 1 ==> has(recordCounts, k) && get(recordCounts, k).Count == net(IN, k) && net(OUT, k) == 1)
+//@   stream 1 invariant absent: forallK(k, net(IN, k) == 0 ==> !has(recordCounts, k) && net(OUT, k) == 0)
+//@   stream 1 invariant alloc: forallK(k, has(recordCounts, k) ==> 0 < addr(get(recordCounts, k)) && addr(get(recordCounts, k)) < frontier())
+//@   stream 1 invariant separation: forallK(k1, forallK(k2, has(recordCounts, k1) && has(recordCounts, k2) && k1 != k2 ==> addr(get(recordCounts, k1)) != addr(get(recordCounts, k2))))
+//@   ensures multiplicity: forallK(k, net(OUT, k) == ite(net(IN, k) >= 1, 1, 0))
+//@   ensures errprop: cbErr != nil ==> result != nil
+
+// C11/C15 filter: OUT is drawn from IN, metadata is forwarded one for one; C06: errors propagate.
+//@ func (*Filter).Run
+//@   stream 1 invariant counts: len(OUT) <= len(IN) && len(OUTM) == len(INM)
+//@   stream 1 invariant subset: forall(j, 0, len(OUT), exists(q, 0, len(IN), sameRec(OUT[j], IN[q])))
+//@   ensures meta: ended ==> result != nil || len(OUTM) == len(INM)
+//@   ensures errprop: cbErr != nil ==> result != nil
